@@ -186,7 +186,14 @@ class ControllerNode:
             tuple(sorted(self.shm_regs(app_id).items())),
             tuple(sorted((a, tuple(v)) for a, v in self.shm_arrays(app_id).items())),
             tuple(self.ex._qubit_unit_modules.get(app_id, ())),    # (gone first while the application is being stopped)
+            self.host_sees_shared_memory(app_id),
         )
+
+    def host_sees_shared_memory(self, app_id: int) -> bool:
+        """What the application's host gets when it looks its shared memory up (by node name and app id) is the very
+        object the executor writes into."""
+        from netqasm.sdk.shared_memory import SharedMemoryManager
+        return SharedMemoryManager.get_shared_memory(self.env.name, key=app_id) is self.ex._shared_memories.get(app_id)
 
 
 class LivenessWatch:
